@@ -399,6 +399,22 @@ def run_real(case):
         if o0['bad']:
             return [dict(op='ctor', status='ok', **o0)], model
 
+    # reference-level model (noiseless detector): the arrays the caller holds, in the order they were handed out
+    refm = case['kind'] == 'noiseless'
+    handles = []          # real object or None (no array object on the caller's side: list, Wavefront, wrong-size input)
+    img_handle = []       # handle of the k-th image
+    inp_handle = []       # handle of the buffer of the j-th successful integration
+
+    def rline(o, line, kind, payload=None):
+        model.append(line)
+        o.setdefault('rchecks', []).append((len(model) - 1, kind, payload))
+
+    def rdump(o):
+        real = [None if h is None else np.array(np.asarray(h), dtype=float).ravel().tolist() for h in handles]
+        share = [(a, b) for a in range(len(handles)) for b in range(a + 1, len(handles))
+                 if handles[a] is not None and handles[b] is not None and np.shares_memory(np.asarray(handles[a]), np.asarray(handles[b]))]
+        rline(o, 'C17 rdump', 'dump', (real, share))
+
     def check_alias(o):
         for k, (im, snap) in enumerate(images):
             if im is not None and not (np.array_equal(np.asarray(im), snap)):
@@ -494,16 +510,29 @@ def run_real(case):
             model.append('C17 read')
             o['model_idx'] = len(model) - 1
             do_read(o)
+            if refm and 'got' in o and not o['bad']:
+                rline(o, 'C17 rread', 'read', o['got'])
+                img_handle.append(len(handles))
+                handles.append(images[-1][0])
         elif op[0] in ('int', 'call'):
             _, ik, data, dt, w, asint = op
             do_int(o, ik, data, dt, w, asint)
             if 'power' in o:
                 model.append('C17 int %s %s %s' % (rat_list(o['power']), rat(dt), rat(w)))
                 o['model_int_idx'] = len(model) - 1
+            if refm and 'power' in o and o['status'] == 'ok':
+                rline(o, 'C17 ralloc %s' % rat_list(o['power']), 'ok')
+                rline(o, 'C17 rint %d %s %s' % (len(handles), rat(dt), rat(w)), 'ok')
+                inp_handle.append(len(handles))
+                handles.append(inputs[-1][0] if ik in ('field', 'plain', 'foreignfield', 'intfield', 'boolfield') else None)
             if op[0] == 'call' and not o['bad']:
                 model.append('C17 read')
                 o['model_idx'] = len(model) - 1
                 do_read(o)
+                if refm and 'got' in o and not o['bad']:
+                    rline(o, 'C17 rread', 'read', o['got'])
+                    img_handle.append(len(handles))
+                    handles.append(images[-1][0])
         elif op[0] == 'bad':
             _, variant, data, dt, w = op
             obj = make_bad_input(variant, data)
@@ -518,6 +547,10 @@ def run_real(case):
                                  '(accumulated charge now has shape %r)' % (variant, len(data), det.input_grid.size, np.shape(acc))))
             except Exception as e:  # noqa
                 o['status'] = 'raises:' + type(e).__name__
+            if refm and o['status'].startswith('raises'):
+                rline(o, 'C17 ralloc %s' % rat_list(data), 'ok')
+                rline(o, 'C17 rint %d %s %s' % (len(handles), rat(dt), rat(w)), 'err value')
+                handles.append(None)
         elif op[0] == 'set':
             prm, spec = op[1], op[2]
             if prm == 'flat_field':
@@ -535,6 +568,8 @@ def run_real(case):
                 try:
                     im[...] = op[2]
                     images[k] = (im, np.array(np.asarray(im), copy=True))
+                    if refm and k < len(img_handle):
+                        rline(o, 'C17 rwrite %d %s' % (img_handle[k], rat_list([float(x) for x in np.asarray(im, dtype=float).ravel()])), 'ok')
                 except Exception:  # noqa  (read-only image: nothing to scribble on)
                     pass
         elif op[0] == 'reuse':
@@ -548,12 +583,16 @@ def run_real(case):
                     else:
                         buf[...] = vals.astype(buf.dtype)
                     inputs[j] = (buf, np.array(np.asarray(buf), copy=True))
+                    if refm and j < len(inp_handle) and handles[inp_handle[j]] is not None:
+                        rline(o, 'C17 rwrite %d %s' % (inp_handle[j], rat_list([float(x) for x in np.asarray(buf, dtype=float).ravel()])), 'ok')
                 except Exception:  # noqa
                     pass
         else:
             raise MachineryError('unknown op %r' % (op,))
         if not o['bad']:
             check_alias(o)
+        if refm and not o['bad']:
+            rdump(o)
         obs.append(o)
         if o['bad']:
             break
@@ -671,6 +710,35 @@ def compare_model(ctx, out, case, obs, base):
             ctx.count('wrong-size:' + ('refused-by-both' if (resp == 'err value' and o['status'].startswith('raises')) else 'differs'))
             if not (resp == 'err value' and o['status'].startswith('raises')):
                 ctx.disagree('C17 int wrong-size', {'case': case, 'model': resp, 'impl': o['status']})
+                return
+        for idx, kind, payload in o.get('rchecks', []):
+            resp = out[base + idx]
+            ctx.traces_validated += 1
+            ctx.count('ref-model:' + kind)
+            if kind in ('ok', 'err value'):
+                good = resp == kind
+            elif kind == 'read':
+                m = parse_rat_list(resp[3:]) if resp.startswith('ok [') else None
+                good = m is not None and len(m) == len(payload) and all(abs(float(a) - b) <= TOL * max(1.0, abs(float(a))) for a, b in zip(m, payload))
+            else:
+                real, share = payload
+                parts = resp.split(' ')
+                good = len(parts) == 3 and parts[0] == 'ok'
+                if good:
+                    refs = [int(x) for x in parts[1][1:-1].split(',')] if parts[1] != '[]' else []
+                    conts = [] if parts[2] == '-' else [parse_rat_list(c) for c in parts[2].split(';')]
+                    good = len(refs) == len(real) == len(conts)
+                    if good:
+                        # arrays the caller holds: same contents now, and two of them share memory iff the model says they are the same array
+                        for h, (mc, rc) in enumerate(zip(conts, real)):
+                            if rc is not None and (len(mc) != len(rc) or any(abs(float(a) - b) > TOL * max(1.0, abs(float(a))) for a, b in zip(mc, rc))):
+                                good = False
+                        mshare = [(a, b) for a in range(len(refs)) for b in range(a + 1, len(refs))
+                                  if refs[a] == refs[b] and real[a] is not None and real[b] is not None]
+                        if mshare != [tuple(x) for x in share]:
+                            good = False
+            if not good:
+                ctx.disagree('C17 ref-model ' + kind, {'case': case, 'model': resp, 'impl': payload})
                 return
         if 'model_idx' in o and 'got' in o:
             ctx.traces_validated += 1
